@@ -242,6 +242,11 @@ def c13_oracle(c, impl):
         check_views(kv, L, f, 'range')
         if int(kv['rend']) != L[-1]:
             f.append('End() = %s, last enumerated value %d' % (kv['rend'], L[-1]))
+        if 'rvalue' in kv:
+            # the single range's own accessors, asked directly (not through the multi-range wrapper)
+            direct = dict(len=kv['rlen'], frames=kv['riter'], start=str(m['s']), end=kv['rend'], min=kv['rmin'], max=kv['rmax'],
+                          value=kv['rvalue'], index=kv['rindex'], has=kv['rhas'])
+            check_views(direct, L, f, 'range (direct)')
     else:
         L = []
         for (s, e, stp) in m['h']:
@@ -1277,6 +1282,16 @@ def c07_cases(rng, tier):
         out.append(case('findseq', [','.join(map(str, opts)), st, pat, readable] + ents,
                         'pattern=%r style=%d opts=%s readable=%d entries=%r' % (pat, st, opts, readable, ents), shape,
                         dict(pat=pat, d=d, base=base, ext=ext, mid=mid, st=st, opts=opts, ents=ents, readable=readable, kind=shape.split(':')[0])))
+    return c07_probe_cases() + out
+
+
+def c07_probe_cases():
+    """the witness of known finding K6, replayed on every run"""
+    out = []
+    for i, (pat, ent) in enumerate([('a1-2.exr', 'a15.exr'), ('v2-0001.exr', 'v20005.exr')]):
+        d = 'k6p%d/d/' % i
+        out.append(case('findseq', ['', 1, d + pat, 1, 'F:' + ent], 'pattern=%r style=1 opts=[] readable=1 entries=%r' % (d + pat, ['F:' + ent]),
+                        'probe:digit-base', dict(pat=d + pat, d=d, base=None, ext=None, mid='', st=1, opts=[], ents=['F:' + ent], readable=1, kind='frame')))
     return out
 
 
@@ -1368,6 +1383,8 @@ def c14_cases(rng, tier):
 def c14_oracle(c, impl):
     st, kv, bare = impl
     m = c['meta']
+    if st == 'TIMEOUT':
+        return ['did not answer within 4 s for a single-component range of %d frames: enumeration?' % m['n']]
     if st != 'OK':
         return ['status ' + st]
     f = []
